@@ -4,6 +4,7 @@ mod dom;
 mod eval;
 mod generators;
 mod ir;
+mod ops;
 mod runner;
 mod safe_print;
 
